@@ -76,6 +76,17 @@ def load_contracts(index: Index, module_names: List[str]) -> Dict[str, Contract]
     out: Dict[str, Contract] = {}
     for mn in module_names:
         m = index.modules[mn]
+        # lemmas: plain functions decorated with @lemma(...) - verified like any function against the
+        # trivial contract "never raises" (a failing `assert` in the body is an escaping AssertionError)
+        for fname, fi in m.functions.items():
+            for d in fi.decorators:
+                if isinstance(d, ast.Call) and ast.unparse(d.func).split('.')[-1] == 'lemma':
+                    kw = {k.arg: _literal(k.value) for k in d.keywords}
+                    ct = Contract(target=fi.qualname, name=fname, module=mn, props=tuple(kw.get('props') or ()),
+                                  types=dict(kw.get('types') or {}), pins=dict(kw.get('pins') or {}))
+                    ct.extra['lemma'] = True
+                    ct.extra['cross_check'] = False
+                    out[fi.qualname] = ct
         for cname, c in m.classes.items():
             deco = None
             for d in c.node.decorator_list:
